@@ -3,6 +3,7 @@ package c12
 
 import (
 	"fmt"
+	"os"
 	"strings"
 	"sync"
 	"time"
@@ -90,6 +91,28 @@ func Run(r *core.Report, env *build.Env) {
 			for _, opt := range levels {
 				opt := opt
 				cells = append(cells, func() { x.cellForEach(sh, opt) })
+			}
+		}
+	}
+	// a block that is released and handed out again for another text of the same byte size: the
+	// runtime must not remember anything about the text that lived there (pairs of shapes of 2..3
+	// code points with equal byte size and different layouts)
+	for k := 2; k <= x.maxK && k <= 3; k++ {
+		for _, sa := range llh.Shapes(k) {
+			for _, sb := range llh.Shapes(k) {
+				sa, sb := sa, sb
+				ta, tb, same := 0, 0, true
+				for i := range sa {
+					ta += sa[i]
+					tb += sb[i]
+					if sa[i] != sb[i] {
+						same = false
+					}
+				}
+				if ta != tb || same || ta > 6 {
+					continue
+				}
+				cells = append(cells, func() { x.cellReuse(sa, sb) })
 			}
 		}
 	}
@@ -884,4 +907,112 @@ int main(void) {
 		return txt, false
 	}
 	return txt, nr.Exit != 0 || !strings.Contains(nr.Stdout, want)
+}
+
+// cellReuse: text A is indexed at its last position, then its block is released and handed out
+// again (same address, same size - what an allocator may do) for text B; indexing B gives B's
+// code points. Guards against state kept between calls (caches keyed by address).
+func (x *ctx) cellReuse(shA, shB []int) {
+	h := x.newH("reuse_" + llh.ShapeName(shA) + "_then_" + llh.ShapeName(shB))
+	defer h.Close()
+	c := h.C
+	fn := h.Ex.FindFunc("ddp_string_index")
+	if fn == nil || fn.Decl {
+		x.r.EngineFailf("%s: ddp_string_index not found in the runtime IR", h.Cell)
+		return
+	}
+	cpsA, t := x.symText(h, "a", shA)
+	var cpsB []llh.CP
+	for k, n := range shB {
+		cpsB = append(cpsB, h.SymCP(fmt.Sprintf("b_cp%d", k), n))
+	}
+	kA, kB := len(shA), len(shB)
+	i2 := h.Var("i2", 64)
+	h.St.Assume(c.And(c.SGE(i2, c.BV(64, 1)), c.SLE(i2, c.BV(64, uint64(kB)))))
+	res := h.Run("ddp_string_index", []llse.Val{h.Ptr(t.Hdr), {E: c.BV(64, uint64(kA))}})
+	var all []*llse.State
+	for _, s := range res {
+		h.On(s)
+		if s.Term != llse.TermReturn {
+			h.Fail("in-domain indexing must not stop the program")
+			continue
+		}
+		h.Holds("index of the first text", s.PC, c.Eq(s.Ret.E, cpsA[kA-1].V))
+		// the block now holds text B
+		h.Ex.WriteBytes(s, s.Objs[t.Str.ID], 0, append(cpBytes(c, cpsB), c.BV(8, 0)))
+		for _, e := range h.Ex.CallOn(s, fn, []llse.Val{s.PtrTo(c, s.Objs[t.Hdr.ID], 0), {E: i2}}) {
+			h.On(e)
+			if e.Term != llse.TermReturn {
+				h.Fail("in-domain indexing must not stop the program")
+				continue
+			}
+			want := c.BV(32, 0)
+			for j := kB - 1; j >= 0; j-- {
+				want = c.Ite(c.Eq(i2, c.BV(64, uint64(j+1))), cpsB[j].V, want)
+			}
+			h.Holds("index after the block was handed out again", e.PC, c.Eq(e.Ret.E, want))
+			x.collectFaults(h, e)
+			all = append(all, e)
+		}
+	}
+	if len(res) == 0 {
+		x.r.EngineFailf("%s: no path", h.Cell)
+	}
+	x.finish(h, append(res, all...), func(f *llh.Failure) (string, bool) {
+		m := h.Refine(f, nil, nil)
+		if m == nil {
+			return "no model", false
+		}
+		var a, b []rune
+		for _, cp := range cpsA {
+			v, _ := llh.ValOf(m, cp.V)
+			a = append(a, rune(v))
+		}
+		for _, cp := range cpsB {
+			v, _ := llh.ValOf(m, cp.V)
+			b = append(b, rune(v))
+		}
+		iv, _ := llh.ValOf(m, i2)
+		src := fmt.Sprintf(`#include <stdio.h>
+#include <string.h>
+#include <locale.h>
+#include "DDP/ddptypes.h"
+#include "DDP/ddpmemory.h"
+extern ddpchar ddp_string_index(ddpstring*, ddpint);
+int main(void) {
+	setlocale(LC_ALL, "C.UTF-8");
+	ddpstring t, u;
+	ddp_string_from_constant(&t, %s);
+	ddpchar first = ddp_string_index(&t, (ddpint)%d);
+	/* the block is released and handed out again for a text of the same byte size: what glibc's
+	   malloc does for a free/malloc pair of equal size; written in place here because the
+	   sanitizer build of the replay quarantines freed blocks */
+	ddp_string_from_constant(&u, %s);
+	int same = u.cap == t.cap;
+	if (same) memcpy(t.str, u.str, (size_t)u.cap);
+	printf("SAMEBLOCK %%d\n", same);
+	ddpchar got = ddp_string_index(&t, (ddpint)%d);
+	printf("FIRST %%d GOT %%d\n", (int)first, (int)got);
+	fflush(stdout);
+	ddp_free_string(&t);
+	ddp_free_string(&u);
+	return 0;
+}
+`, cString(string(a)), kA, cString(string(b)), iv)
+		nr, err := x.env.RunC("c12_reuse", src)
+		if err != nil {
+			return err.Error(), false
+		}
+		txt := fmt.Sprintf("model: %s\nfirst text %q indexed at %d, block handed out again for %q, indexed at %d (expected U+%04X)\nexit=%d\nstdout:\n%s\nstderr:\n%s\n--- driver ---\n%s", h.ModelString(m), string(a), kA, string(b), iv, b[iv-1], nr.Exit, nr.Stdout, clip(nr.Stderr, 2000), src)
+		if os.Getenv("VERIF_DEBUG_REPLAY") != "" {
+			fmt.Fprintln(os.Stderr, txt, nr.CompileErr)
+		}
+		if nr.CompileErr != "" {
+			return txt + nr.CompileErr, false
+		}
+		if !strings.Contains(nr.Stdout, "SAMEBLOCK 1") {
+			return txt + "\nthe allocator of the replay did not hand out the same block: not reproduced natively", false
+		}
+		return txt, !strings.Contains(nr.Stdout, fmt.Sprintf("GOT %d\n", int(b[iv-1])))
+	})
 }
